@@ -499,6 +499,29 @@ def r7(ctx: Context) -> None:
     ctx.floor("R7", "whole-key removals on multi-valued indexes", n, 4)
 
 
+def r8(ctx: Context) -> None:
+    ctx.rule("R8", "what a persistent backend reads back is what was stored: functions that rebuild an object from its stored form (from_json / _from_json / from_dict / from_dto) take a default only for a MISSING key (`d.get(k, default)`), never for a falsy value (`d.get(k) or default` turns a stored 0 / False / '' into the default - the in-memory backend, which keeps the original object, then disagrees)")
+    n = 0
+    for f in ctx.repo.all_functions():
+        if f.name.lstrip("_") not in ("from_json", "from_dict", "from_dto", "from_row"):
+            continue
+        n += 1
+        bad = None
+        for b in walk_no_nested(f.node):
+            if isinstance(b, ast.BoolOp) and isinstance(b.op, ast.Or) and len(b.values) >= 2:
+                first = b.values[0]
+                if (isinstance(first, ast.Call) and call_name(first) == "get" and len(first.args) == 1 and not first.keywords) or isinstance(first, ast.Subscript):
+                    # `x.get(k) or {}` / `or []` / `or None` keeps falsy containers equivalent: only scalar defaults change a value
+                    d = b.values[1]
+                    if isinstance(d, (ast.Dict, ast.List, ast.Set, ast.Tuple)) and not getattr(d, "elts", getattr(d, "keys", None)):
+                        continue
+                    if isinstance(d, ast.Constant) and d.value is None:
+                        continue
+                    bad = b
+        ctx.add("R8", f"{f.qualname}::defaults-only-for-missing-keys", bad is None, f.loc(bad) if bad is not None else f.loc(), "" if bad is None else f"`{ast.unparse(bad)[:80]}`: a stored falsy value (0, False, '') is replaced by the default when the object is read back from a persistent backend, while the in-memory backend keeps the original object - the two backends then behave differently for that object")
+    ctx.floor("R8", "readers of stored forms", n, 10)
+
+
 def run(ctx: Context) -> None:
     sites = sqlmini.sites(ctx.repo)
     prs = pairs(ctx)
@@ -510,6 +533,26 @@ def run(ctx: Context) -> None:
     r5(ctx, prs, sites)
     r6(ctx, prs, sites)
     r7(ctx)
+    r8(ctx)
+    # R9: backend-independent logic whose errors surface differently per backend (shared rules): the wait graph's ready set
+    # (C09/R2, in-memory only) and the purge registration (C03/R6: a stale purge mark makes the in-memory auto_purge raise
+    # KeyError where SQLite deletes silently)
+    from . import c09
+
+    ctx.rule("R9", "shared: the in-memory wait graph maintains its ready set exactly as the SQLite query derives it (C09/R2); purge marks exist only for invocations that reached a final status (C03/R6)")
+    sub = Context("C09", ctx.repo, ctx.tier, ctx.seed)
+    sub._resolver = ctx._resolver
+    c09.r2(sub, sites)
+    for i in sub.instances:
+        ctx.add("R9", i.key.split("/", 2)[2], i.ok, i.where, i.detail)
+    from . import c03
+
+    sub3 = Context("C03", ctx.repo, ctx.tier, ctx.seed)
+    sub3._resolver = ctx._resolver
+    c03.r6_purge(sub3)
+    for i in sub3.instances:
+        ctx.add("R9", i.key.split("/", 2)[2], i.ok, i.where, i.detail)
+    ctx.floor("R9", "shared obligations", ctx.count("R9"), 10)
     ctx.exhaustive = True
     ctx.not_decided += [
         "equivalence over operation sequences and agreement with an executable reference model (behavioural)",
